@@ -1,8 +1,233 @@
+//! probe-mem (C08 carrier (ii)): a no-libc executable that links the REAL tiny-start mem symbols
+//! (tiny-std feature `executable` => `symbols` => tiny-start/mem-symbols) under their real names.
+//!
+//! stdin : fixed 32-byte case records (little endian)
+//!   0 op u8 | 1 salt u8 | 2 dmis u8 | 3 smis u8 | 4 n u32 | 8 delta i32 | 12 c i32 | 16 pos i32 | 20 a u8 | 21 b u8 | 22.. zero
+//! stdout: per case `u32 len | i64 ret | D region bytes | S region bytes (two-arena ops only)`; len = 0 => case rejected
+//!
+//! ops 0..=4 call the exported C symbols directly (declared `extern "C"` here, bound by the linker to
+//! tiny-start's definitions); ops 5..=10 are Rust constructs for which the compiler inserts the calls.
+//! Buffers are two static arenas D and S; an operand starts at arena + 64 + misalignment, the region
+//! echoed runs from the arena start to 64 bytes past the operand (red zones on both sides). Initial
+//! contents: pat(salt, i) in D, pat(!salt, i) in S, written with volatile stores; the echo goes out with
+//! write(2) straight from the arena.
 #![no_std]
 #![no_main]
 
+extern crate tiny_std;
+
+use rusl::platform::{STDIN, STDOUT};
+
+extern "C" {
+    fn memcpy(dest: *mut u8, src: *const u8, n: usize) -> *mut u8;
+    fn memmove(dest: *mut u8, src: *const u8, n: usize) -> *mut u8;
+    fn memset(s: *mut u8, c: i32, n: usize) -> *mut u8;
+    fn memcmp(s1: *const u8, s2: *const u8, n: usize) -> i32;
+    fn bcmp(s1: *const u8, s2: *const u8, n: usize) -> i32;
+}
+
+const RZ: usize = 64;
+const MAXN: usize = 256 * 1024;
+const ARENA: usize = MAXN + 4 * RZ;
+
+#[repr(C, align(64))]
+struct Arena([u8; ARENA]);
+static mut D: Arena = Arena([0; ARENA]);
+static mut S: Arena = Arena([0; ARENA]);
+
+fn die(code: i32) -> ! {
+    rusl::process::exit(code)
+}
+
+fn write_all(mut b: &[u8]) {
+    while !b.is_empty() {
+        match rusl::unistd::write(STDOUT, b) {
+            Ok(0) => die(90),
+            Ok(n) => b = &b[n..],
+            Err(e) => {
+                if e.code == Some(rusl::error::Errno::EINTR) {
+                    continue;
+                }
+                die(91)
+            }
+        }
+    }
+}
+
+/// Fill exactly 32 bytes; false at a clean EOF.
+fn read_case(buf: &mut [u8; 32]) -> bool {
+    let mut got = 0usize;
+    while got < 32 {
+        match rusl::unistd::read(STDIN, &mut buf[got..]) {
+            Ok(0) => {
+                if got == 0 {
+                    return false;
+                }
+                die(93)
+            }
+            Ok(n) => got += n,
+            Err(e) => {
+                if e.code == Some(rusl::error::Errno::EINTR) {
+                    continue;
+                }
+                die(92)
+            }
+        }
+    }
+    true
+}
+
+#[inline(always)]
+fn pat(salt: u8, i: usize) -> u8 {
+    ((i.wrapping_mul(131).wrapping_add((i >> 7).wrapping_mul(17))) as u8) ^ salt
+}
+
+unsafe fn fill_pat(p: *mut u8, len: usize, salt: u8) {
+    let mut i = 0;
+    while i < len {
+        p.add(i).write_volatile(pat(salt, i));
+        i += 1;
+    }
+}
+
+#[derive(Clone, Copy)]
+#[repr(C)]
+struct Big<const N: usize> {
+    a: [u8; N],
+}
+
+#[inline(never)]
+unsafe fn struct_copy<const N: usize>(dst: *mut u8, src: *const u8) {
+    let d = &mut *(dst as *mut Big<N>);
+    let s = &*(src as *const Big<N>);
+    *d = *s;
+}
+
+#[inline(never)]
+fn pass<const N: usize>(a: [u8; N]) -> [u8; N] {
+    core::hint::black_box(a)
+}
+
+#[inline(never)]
+unsafe fn array_move<const N: usize>(dst: *mut u8, src: *const u8) {
+    let arr: [u8; N] = core::ptr::read(src as *const [u8; N]);
+    let out = pass(arr);
+    core::ptr::write(dst as *mut [u8; N], out);
+}
+
+fn le_u32(b: &[u8]) -> u32 {
+    u32::from_le_bytes([b[0], b[1], b[2], b[3]])
+}
+
 #[no_mangle]
 pub fn main() -> i32 {
-    tiny_std::println!("probe-mem skeleton");
+    let mut rec = [0u8; 32];
+    let d0 = core::ptr::addr_of_mut!(D) as *mut u8;
+    let s0 = core::ptr::addr_of_mut!(S) as *mut u8;
+    while read_case(&mut rec) {
+        let op = rec[0];
+        let salt = rec[1];
+        let dmis = rec[2] as usize;
+        let smis = rec[3] as usize;
+        let n = le_u32(&rec[4..8]) as usize;
+        let delta = le_u32(&rec[8..12]) as i32 as isize;
+        let c = le_u32(&rec[12..16]) as i32;
+        let pos = le_u32(&rec[16..20]) as i32;
+        let (a, b) = (rec[20], rec[21]);
+        let ad = delta.unsigned_abs();
+        let one_arena = matches!(op, 1 | 2 | 8 | 9);
+        let span = if matches!(op, 1 | 9) { ad + n } else { n };
+        let ok = dmis < 64 && smis < 64 && span <= MAXN && match op {
+            5 => matches!(n, 1024 | 2048 | 4096) && dmis == 0 && smis == 0,
+            6 => matches!(n, 1024 | 1500 | 4096),
+            3 | 4 | 10 => pos < n as i32,
+            0..=10 => true,
+            _ => false,
+        };
+        if !ok {
+            write_all(&0u32.to_le_bytes());
+            continue;
+        }
+        let dlen = RZ + dmis + span + RZ;
+        let slen = RZ + smis + n + RZ;
+        let ret: i64;
+        unsafe {
+            fill_pat(d0, dlen, salt);
+            if !one_arena {
+                fill_pat(s0, slen, !salt);
+            }
+            let dp = d0.add(RZ + dmis);
+            let sp = s0.add(RZ + smis);
+            match op {
+                0 => ret = memcpy(dp, sp, n) as i64 - dp as i64,
+                1 | 9 => {
+                    // lower operand at dp, the other |delta| above it; delta = dest - src
+                    let (dest, src) = if delta >= 0 { (dp.add(ad), dp) } else { (dp, dp.add(ad)) };
+                    if op == 1 {
+                        ret = memmove(dest, src, n) as i64 - dest as i64;
+                    } else {
+                        let sl = core::slice::from_raw_parts_mut(dp, span);
+                        let (di, si) = if delta >= 0 { (ad, 0) } else { (0, ad) };
+                        sl.copy_within(si..si + n, di);
+                        ret = 0;
+                    }
+                }
+                2 => ret = memset(dp, c, n) as i64 - dp as i64,
+                3 | 4 | 10 => {
+                    // equal operands (pattern relative to the operand start), then one differing pair
+                    fill_pat(dp, n, salt ^ 0x3c);
+                    fill_pat(sp, n, salt ^ 0x3c);
+                    if pos >= 0 {
+                        dp.add(pos as usize).write_volatile(a);
+                        sp.add(pos as usize).write_volatile(b);
+                    }
+                    ret = match op {
+                        3 => memcmp(dp, sp, n) as i64,
+                        4 => bcmp(dp, sp, n) as i64,
+                        _ => {
+                            let x = core::slice::from_raw_parts(dp as *const u8, n);
+                            let y = core::slice::from_raw_parts(sp as *const u8, n);
+                            i64::from(core::hint::black_box(x) == core::hint::black_box(y))
+                        }
+                    };
+                }
+                5 => {
+                    match n {
+                        1024 => struct_copy::<1024>(dp, sp),
+                        2048 => struct_copy::<2048>(dp, sp),
+                        _ => struct_copy::<4096>(dp, sp),
+                    }
+                    ret = 0;
+                }
+                6 => {
+                    match n {
+                        1024 => array_move::<1024>(dp, sp),
+                        1500 => array_move::<1500>(dp, sp),
+                        _ => array_move::<4096>(dp, sp),
+                    }
+                    ret = 0;
+                }
+                7 => {
+                    let dst = core::slice::from_raw_parts_mut(dp, n);
+                    let src = core::slice::from_raw_parts(sp as *const u8, n);
+                    core::hint::black_box(dst).copy_from_slice(core::hint::black_box(src));
+                    ret = 0;
+                }
+                _ => {
+                    // 8: fill
+                    let dst = core::slice::from_raw_parts_mut(dp, n);
+                    core::hint::black_box(dst).fill(core::hint::black_box(c as u8));
+                    ret = 0;
+                }
+            }
+            let total = 8 + dlen + if one_arena { 0 } else { slen };
+            write_all(&(total as u32).to_le_bytes());
+            write_all(&ret.to_le_bytes());
+            write_all(core::slice::from_raw_parts(d0 as *const u8, dlen));
+            if !one_arena {
+                write_all(core::slice::from_raw_parts(s0 as *const u8, slen));
+            }
+        }
+    }
     0
 }
